@@ -199,7 +199,7 @@ func c10AcceptLoop(gs []ovlGoroutine, fn string) (found, inAccept bool, where st
 }
 
 func c10Stalled(R *vr.Result, iface *Store, dir string) {
-	const nstall = 100
+	nstall := vr.Pick(100, 300) // per listener
 	// listeners owned by the test, served by the agent's own functions
 	sock := filepath.Join(dir, "stall.sock")
 	stop := ovlSasl(sock, iface)
